@@ -1,11 +1,15 @@
 package props
 
 import (
+	"crypto/ed25519"
+	"errors"
 	"fmt"
 	"strings"
 	"testing"
+	"time"
 
 	biscuit "github.com/biscuit-auth/biscuit-go/v2"
+	"github.com/biscuit-auth/biscuit-go/v2/datalog"
 	"pgregory.net/rapid"
 
 	"verif/internal/bridge"
@@ -30,6 +34,68 @@ type C13Case struct {
 	Rounds   []C13Round `json:"rounds"`
 	RootSeed uint64     `json:"root_seed"`
 	Reload   bool       `json:"reload"`
+	HeavyN   int        `json:"heavy_n,omitempty"` // > 0: first a round that ends in a timeout (cross product over this many facts)
+}
+
+// c13TimeoutRound: "any outcome of each round" includes a round that is cut short by the
+// duration limit. The abandoned evaluation keeps running for a while; after Reset, and once
+// it has finished, the authorizer must still behave like a fresh one.
+func c13TimeoutRound(c C13Case, b *biscuit.Biscuit, pub ed25519.PublicKey, rec *obs.Recorder) *obs.Violation {
+	opt := biscuit.WithWorldOptions(datalog.WithMaxDuration(15*time.Millisecond), datalog.WithMaxFacts(100000), datalog.WithMaxIterations(1000))
+	mk := func() (biscuit.Authorizer, error) {
+		return b.AuthorizerFor(biscuit.WithSingularRootPublicKey(pub), opt)
+	}
+	a, err := mk()
+	if err != nil {
+		return obs.Violf("token does not verify: %v", err)
+	}
+	x, y, z, w := m.Var("x"), m.Var("y"), m.Var("z"), m.Var("w")
+	for i := 0; i < c.HeavyN; i++ {
+		a.AddFact(bridge.ToFact(m.P("resource", m.Int(int64(1000+i)))))
+	}
+	// every combination matches: right(i) is known only when the whole enumeration is over
+	a.AddRule(bridge.ToRule(m.Rule{Head: m.P("right", x), Body: []m.Pred{m.P("resource", x), m.P("resource", y), m.P("resource", z), m.P("resource", w)}}))
+	a.AddPolicy(bridge.ToPolicy(m.Policy{Allow: true, Queries: []m.Rule{{Head: m.Pred{Name: "policy"}}}}))
+	if first := a.Authorize(); !errors.Is(first, datalog.ErrWorldRunLimitTimeout) {
+		rec.Label("timeout-round:no-timeout(skipped)")
+		return nil
+	}
+	a.Reset()
+	// wait for the abandoned evaluation to finish
+	deadline := time.Now().Add(20 * time.Second)
+	for snapshotDatalogGoroutines().active > 0 {
+		if time.Now().After(deadline) {
+			rec.Label("timeout-round:still-running(skipped)")
+			return nil
+		}
+		time.Sleep(20 * time.Millisecond)
+	}
+	q := m.Rule{Head: m.P("seen", x), Body: []m.Pred{m.P("right", x)}}
+	q2 := m.Rule{Head: m.P("seen", x), Body: []m.Pred{m.P("resource", x)}}
+	ask := func(az biscuit.Authorizer) (string, bool) {
+		for try := 0; try < 6; try++ {
+			k1, k2 := queryKey(az, q), queryKey(az, q2)
+			if k1 != "!limit" && k2 != "!limit" {
+				return k1 + " | " + k2, true
+			}
+		}
+		return "", false
+	}
+	fresh, err := mk()
+	if err != nil {
+		return obs.Violf("token does not verify: %v", err)
+	}
+	got, ok1 := ask(a)
+	want, ok2 := ask(fresh)
+	if !ok1 || !ok2 {
+		rec.Label("timeout-round:limit-on-empty-round(skipped)")
+		return nil
+	}
+	rec.Label("timeout-round:compared")
+	if got != want {
+		return obs.ViolK("reset-leak", "token %s: a round of %d facts and a 4-way cross product ended with the timeout error; after Reset (and after the abandoned evaluation had finished) the authorizer, with nothing added, answers {%s} where a fresh authorizer answers {%s}", c.Token.Text(), c.HeavyN, got, want)
+	}
+	return nil
 }
 
 type roundObs struct {
@@ -57,6 +123,11 @@ func checkC13(c C13Case, rec *obs.Recorder) *obs.Violation {
 	reused, err := newAuthz(b, pub, m.Authz{})
 	if err != nil {
 		return obs.Violf("token does not verify: %v", err)
+	}
+	if c.HeavyN > 0 {
+		if v := c13TimeoutRound(c, b, pub, rec); v != nil {
+			return v
+		}
 	}
 	act := func(a interface {
 		Authorize() error
@@ -156,6 +227,9 @@ func drawC13(t *rapid.T) C13Case {
 	cfg.PPolicyMatch = 60
 	sc := gen.DrawScenario(t, cfg, gen.SmallProfile)
 	c := C13Case{Token: sc.Token, RootSeed: rapid.Uint64Range(1, 1<<20).Draw(t, "root"), Reload: rapid.Bool().Draw(t, "reload")}
+	if rapid.IntRange(0, 39).Draw(t, "timeout-round") == 39 {
+		c.HeavyN = rapid.IntRange(16, 22).Draw(t, "heavy-n")
+	}
 	n := rapid.IntRange(2, 6).Draw(t, "rounds")
 	cur := sc.Authz
 	for i := 0; i < n; i++ {
